@@ -259,6 +259,112 @@ def check_undamaged(rep, tier, rng):
     rep.cov.setdefault("file_level_undamaged", {})["files"] = len(cases)
 
 
+def _foreign_files(tier, rng):
+    """Files carquet's own writer cannot produce, written by the independent writer tools/pq.py:
+    dictionary-encoded chunks whose DICTIONARY pages and data pages carry CRCs (the reader has separate checksum
+    sites for dictionary pages), data pages v1 and v2, compressed and not - and the same files WITHOUT any CRC
+    (nothing to verify: they must read with verification on).  -> [(name, bytes, has_crc)]"""
+    import struct
+    out = []
+    # data pages v1 only: what the reader does with v2 pages is C06's subject, not the checksum's
+    variants = [("UNCOMPRESSED", 1), ("SNAPPY", 1), ("ZSTD", 1)] if tier == "quick" else \
+               [(c, 1) for c in ("UNCOMPRESSED", "SNAPPY", "GZIP", "ZSTD", "LZ4_RAW")]
+    for codec, ver in variants:
+        for crc in (True, False):
+            n = rng.choice([9, 12, 17])
+            ivals = [struct.pack("<q", rng.choice([7, 7, 11, 13, rng.getrandbits(40)])) for _ in range(n)]
+            defs = [rng.choice([1, 1, 0]) for _ in range(n)]
+            svals = [rng.choice([b"alpha", b"beta", b"", b"gamma-gamma"]) for d in defs if d]
+            cut = rng.randrange(1, n)
+
+            def pages(enc):
+                return [pq.PageSpec(cut, enc, version=ver, crc=crc), pq.PageSpec(n - cut, enc, version=ver, crc=crc)]
+            cols = [pq.ColumnSpec([0] * n, [0] * n, ivals, pages("RLE_DICTIONARY"), codec=codec, dictionary="auto",
+                                  dict_offset=rng.choice(["present", "absent"]), dict_crc=crc),
+                    pq.ColumnSpec(defs, [0] * n, svals, pages("RLE_DICTIONARY"),
+                                  codec=codec, dictionary="auto", dict_crc=crc)]
+            root = pq.SchemaNode("schema", "REQUIRED", None, 0,
+                                 [pq.SchemaNode("k", "REQUIRED", "INT64", 0), pq.SchemaNode("s", "OPTIONAL", "BYTE_ARRAY", 0)])
+            try:
+                data = pq.write_file(pq.FileSpec(root, [pq.RowGroupSpec(n, cols)]), random.Random(rng.getrandbits(32)))
+            except Exception as e:          # an option this version of pq.py does not offer
+                vlib.log("   C14 foreign file not written:", e)
+                continue
+            out.append(("pq-dict-%s-v%d-%s" % (codec, ver, "crc" if crc else "nocrc"), data, crc))
+    return out
+
+
+def check_foreign(rep, tier, rng):
+    """Checksum sites the carquet-written files never reach: dictionary pages with a CRC, files without CRCs."""
+    files = _foreign_files(tier, rng)
+    stats = {"files": len(files), "damaged_reads": 0, "dictionary_page_bits": 0, "without_crc": 0}
+    for name, data, has_crc in files:
+        cj = {"image_hex": data.hex(), "name": name}
+        pf = pq.read_file(data)
+        if pf.fatal or any(v.clause in ("page_chain", "page_decode", "page_crc") for v in pf.validate()):
+            rep.tie_broken("file-level C14: the independent reader does not accept its own file " + name, name); continue
+        ok0 = True
+        for m in MODES:                     # undamaged: no error with verification on, with or without CRCs in the file
+            rep.count(("foreign-undamaged", name, m))
+            dv = fc.dump(data, m, True, BIG)
+            if dv.fault or not dv.opened or dv.read_errors():
+                d0 = fc.dump(data, m, False, BIG)
+                if not (d0.fault or not d0.opened or d0.read_errors()):
+                    rep.violation(f"undamaged file ({name}: dictionary pages, {'page and dictionary CRCs' if has_crc else 'NO checksums stored'}) "
+                                  f"reports an error only with verify_checksums=1 in mode {m}: {dv.error or dv.read_errors() or dv.fault}",
+                                  {"file_case": cj, "mode": m, "damage": None})
+                else:
+                    rep.tie_broken(f"file-level C14: foreign file {name} does not read back even without verification (mode {m}): "
+                                   f"{d0.error or d0.read_errors() or d0.fault}", name)
+                ok0 = False
+        if not has_crc:
+            stats["without_crc"] += 1
+            continue
+        if not ok0:
+            continue
+        damages = [d for d in _damages("quick", rng, data, pf)]
+        # all bits of the dictionary pages, a sample of the data-page bits (those sites are swept on carquet's own files)
+        dict_pages = {(ch.rg, ch.col, i) for row in pf.chunks for ch in row for i, pg in enumerate(ch.pages) if pg.kind == "DICTIONARY_PAGE"}
+        dd = [d for d in damages if (d["rg"], d["col"], d["page"]) in dict_pages]
+        rest = [d for d in damages if (d["rg"], d["col"], d["page"]) not in dict_pages]
+        rng.shuffle(rest)
+        damages = dd + rest[: (60 if tier == "quick" else 600)]
+        stats["dictionary_page_bits"] += len(dd)
+
+        def on_result(k, v, damages=damages, cj=cj, name=name):
+            i, mode, kind = k
+            d = damages[i]
+            rep.count(("foreign-on", name, i, mode, kind))
+            stats["damaged_reads"] += 1
+            if len(rep.violations) >= 12:
+                return
+            if not v["error"]:
+                rep.violation(f"damaged page body read without error (verify_checksums=1, {mode}, {kind} reader, file {name}): "
+                              f"rg {d['rg']} col {d['col']} page {d['page']}{' (dictionary page)' if (d['rg'], d['col'], d['page']) in dict_pages else ''} "
+                              f"offset {d['offset']} xor {d['mask']}; {v['rows']} rows delivered",
+                              {"file_case": cj, "damage": d, "mode": mode, "reader": kind}, key=None)
+            elif v["rows"] > (d["rows_before_file"] if kind == "br" else d["rows_before"]):
+                rep.violation(f"rows of a damaged page were delivered before the error (verify_checksums=1, {mode}, {kind} reader, file {name}): "
+                              f"{v['rows']} rows, only {d['rows_before']} precede page {d['page']}",
+                              {"file_case": cj, "damage": d, "mode": mode, "reader": kind}, key=None)
+
+        def on_fault(i, fault, stderr, damages=damages, cj=cj):
+            if len(rep.violations) < 12:
+                rep.violation(f"crash / sanitizer report while reading a damaged page with verify_checksums=1: {fault.get('summary')}",
+                              {"file_case": cj, "damage": damages[i], "stderr": stderr[-1500:]}, key=None)
+
+        def on_result_off(k, v, name=name):
+            rep.count(("foreign-off", name) + k)
+
+        def on_fault_off(i, fault, stderr, damages=damages, cj=cj):
+            if len(rep.violations) < 12:
+                rep.violation(f"crash / sanitizer report while reading a damaged page with verify_checksums=0: {fault.get('summary')}",
+                              {"file_case": cj, "damage": damages[i], "verify": False, "stderr": stderr[-1500:]}, key=None)
+        _run_all(data, damages, True, 8, 40, on_result, on_fault)
+        _run_all(data, damages, False, 8, 40, on_result_off, on_fault_off)
+    rep.cov["file_level_foreign"] = stats
+
+
 def check_files(rep, tier, rng):
     """Entry point used by checks/C14.py (see module docstring)."""
     try:
@@ -267,6 +373,7 @@ def check_files(rep, tier, rng):
         rep.tie_broken("harness h_file does not build against the current tree: " + str(e)[:400])
         return
     check_undamaged(rep, tier, rng)
+    check_foreign(rep, tier, rng)
     files = _gen_files(tier, rng)
     if len(files) < (4 if tier == "quick" else 20):
         rep.tie_broken(f"file-level C14: only {len(files)} usable carquet-written files could be produced")
@@ -343,11 +450,15 @@ def check_files(rep, tier, rng):
 
 def replay_file(obj):
     """Re-run one recorded file-level violation; returns 1 when it still shows."""
-    case = fc.case_from_json(obj["file_case"])
-    p = fc.tmppath()
-    st = fc.write_case(case, p)
-    print("write:", list(st))
-    data = Path(p).read_bytes()
+    if "image_hex" in obj["file_case"]:                 # a file of the independent writer: the image itself is recorded
+        data = bytes.fromhex(obj["file_case"]["image_hex"])
+        print("foreign file", obj["file_case"].get("name"), len(data), "bytes")
+    else:
+        case = fc.case_from_json(obj["file_case"])
+        p = fc.tmppath()
+        st = fc.write_case(case, p)
+        print("write:", list(st))
+        data = Path(p).read_bytes()
     d = obj.get("damage")
     if d:
         b = bytearray(data)
